@@ -156,7 +156,7 @@ def main(chk, tier, seed):
                        "entries equal to 10000 are the runtime's infinity (run.INFINITY) and only generated for min problems",
                        "a firing of the harness watchdog (worker timeout) is inconclusive; the orchestrator's own 20 s timer is the property's bound"]
     n = 64 if tier == "quick" else 1600
-    common.run_chunked(chk, "c22", n, nchunks=16 if tier == "quick" else 64, job_extra={"lines": tier == "thorough"}, timeout=3000)
+    common.run_chunked(chk, "c22", n, nchunks=16 if tier == "quick" else 64, job_extra={"lines": tier == "thorough"}, timeout=600 if tier == "quick" else 3000)
     out = chk.extra.get("outcomes", {})
     chk.inconclusive_if(out.get("solved", 0) < n // 2 and not chk.violations, "only %d of %d runs reached a result" % (out.get("solved", 0), n))
 
